@@ -20,7 +20,7 @@ BUDGET_NS = 22_000 * 10**6
 
 def scenario(r, it, tier, k, force=None):
     sim = EpSim(r, inter=it)
-    sim.srv(8, 8, 1, dict(DEFAULT_EP))
+    sim.srv(8, 8, r.pick([0, 1]), dict(DEFAULT_EP))
     lat = r.pick([0, 5_000_000, 40_000_000])
     clean = {"c2s": Net(latency=lat), "s2c": Net(latency=lat)}
     lossy = {"c2s": Net(loss=r.pick([0, 100, 300]), dup=r.pick([0, 200]), latency=lat, jitter=r.pick([0, 20_000_000]), reorder=r.pick([0, 200])),
